@@ -14,7 +14,8 @@ RULE = (
     "every AnnotationCollection of a menu of span arrangements (1-3 children: disjoint, touching, overlapping, nested "
     "with shared start/end, identical, at position 0 and at N) x kind tuples (coding / non-coding / two-isoform genes, "
     "1-2-feature collections, 1-2-variant collections; <=3 genes, <=2 feature collections, <=1 variant collection) x "
-    "parent {none, sequence-less chromosome, chromosome with sequence, chunk windows} on W(N), plus the empty collection; "
+    "parent {none, sequence-less chromosome, chromosome with sequence, chunk windows} on W(N), plus the empty collection, "
+    "plus collections with EXPLICIT bounds strictly inside their chromosome / chunk sequence (family xb); "
     "the same arrangements translated across 2^17, 2^20, 2^23 (parentless) and, thorough, inside a 300 kb chromosome "
     "with sequence. For each collection EVERY (start,end) in [lo-1,hi+1]^2 plus None x all 8 flag combinations of "
     "query_by_position; every subset of child guids / grandchild guids / identifiers plus one unknown for the five "
@@ -109,6 +110,25 @@ def base_specs(tier):
             for pk, win in pm:
                 d2 = name in D2_ARR[tier] and pk in ("chrom", "chunk", "none") and _d2_kinds(kinds, tier)
                 yield dict(fam="tiny", off=0, N=N, L=N, parent=pk, win=win, children=children, d2=d2, arr=name, kinds=list(kinds))
+    # --- explicit bounds strictly inside the sequence (chromosome with sequence, chunk) ------------------------------------
+    xarr = ("1-inner", "2-overlap", "3-mixed") if tier == "quick" else ("1-inner", "2-disjoint", "2-nested", "2-overlap", "3-chain", "3-disjoint", "3-mixed")
+    for name in xarr:
+        spans = arrs[name]
+        lo, hi = min(s for s, e in spans), max(e for s, e in spans)
+        cand = []
+        for b in ((lo, hi), (lo - 1, hi + 1), (lo, hi + 1), (lo - 1, hi)):
+            if 1 <= b[0] and b[1] <= N - 1 and b not in cand:
+                cand.append(b)
+        if tier == "quick":
+            cand = cand[:2]
+        for kinds in BOUND_KINDS[len(spans)]:
+            children = _mk_children(kinds, spans, 0)
+            for b in cand:
+                pm = [("chrom", None), ("chunk", (b[0] - 1, b[1] + 1))]
+                if tier == "thorough" and (b[0] - 1, b[1] + 1) != (0, N):
+                    pm.append(("chunk", (0, N)))
+                for pk, win in pm:
+                    yield dict(fam="xb", off=0, N=N, L=N, parent=pk, win=win, bounds=list(b), children=children, d2=False, arr=name, kinds=list(kinds))
     # --- boundary worlds (parentless, sequence-less) --------------------------------------------------------------------
     for lvl in t["levels"]:
         B = 1 << lvl
@@ -305,9 +325,15 @@ def compare_sequences(r, got, members, rstate, gfn):
             probs.append(("sequence-from-nowhere", str(r.sequence)[:40]))
         return probs
     want = gfn(win[0], win[1])
-    if r.sequence is None or str(r.sequence) != want:
+    held = rstate.get("held")
+    if r.sequence is not None and held is not None and tuple(held) != tuple(win) and str(r.sequence) == gfn(held[0], held[1]):
+        pass  # nothing was subset: the result keeps the source's parent (explicit bounds inside a longer sequence)
+    elif r.sequence is None or str(r.sequence) != want:
         probs.append(("collection-sequence", {"got": None if r.sequence is None else _clip(str(r.sequence)), "expected": _clip(want), "win": win,
                                               "shape": _shape(None if r.sequence is None else str(r.sequence), want)}))
+    oc = lib.outcome(lambda: str(r.get_reference_sequence()))
+    if oc[0] != "ok" or oc[1] != want:
+        probs.append(("collection-reference-sequence", {"got": _clip(oc[1]), "expected": _clip(want), "win": win, "shape": _shape(oc[1], want)}))
     for c in members:
         o = got.get(c["id"])
         if o is None:
@@ -613,6 +639,8 @@ def pos_menu(st, spec, around=None):
 def explore(res, spec):
     gfn = genome_fn(spec["L"])
     bspec = {k: spec[k] for k in ("off", "N", "L", "parent", "win", "children")}
+    if spec.get("bounds"):
+        bspec["bounds"] = list(spec["bounds"])
     case = {"spec": bspec, "path": []}
     st = M.base_state(bspec)
     o = lib.outcome(W.build_collection, bspec)
